@@ -39,6 +39,16 @@ def run(ctx):
     rc.run_reg(ctx, vh, t, stacks='ro(mem);immw(mem);http(ro(mem));http(immw(http(mem)))', n=30 if quick else 800, steps=50,
                imm='false', extra=['-honest', '-pre', '25'])
     traces.append(t)
+    # (2b) two callers racing through the immutable wrapper: every interleaving of the calls it makes on the registry
+    # (OciImmwConc), replayed behind a gate
+    vlib.model_check(ctx, 'OciImmwConc.tla', 'OciImmwConc.cfg', workers=1,
+                     what='two concurrent tagged pushes through ocifilter.Immutable, all interleavings of resolve / push / resolve-again over 6 scenarios: NothingDeleted, OkMeansTagged')
+    sched, _ = vlib.generate(ctx, 'OciImmwConc.tla', 'OciImmwConc.cfg', workers=1, timeout=300)
+    if len(sched) < 60:
+        raise vlib.Machinery('OciImmwConc exported only %d schedules' % len(sched))
+    t = os.path.join(td, 'immw-race.ndjson')
+    vlib.run_harness(ctx, vh, ['immwrace', '-scen', rc.write_scenarios(ctx, sched, 'immw.jsonl'), '-out', t, '-reps', '1' if quick else '5'])
+    traces.append(t)
     # (3) the concurrent clause: goroutines contend on ocimem in immutable-tags mode (large manifests pushed to one
     # tag at the same moment, deletes against pushes); TLC searches a linearization of each history (LinTrace)
     import subprocess
@@ -54,6 +64,7 @@ def run(ctx):
     vlib.judge_traces(ctx, 'LinTrace', 'LinTrace.cfg', [tc], strict=dict(STRICT, K3_CommitTwoPhase=False), shard_lines=1500,
                       label='concurrent immutable-tags histories (linearizability)')
     ctx.assumptions += ['"remains retrievable" is read as: no step removes content reachable from a tag through manifests read under the media type they are stored with (DESIGN 5/C14, O1)',
+                        'concurrent callers through the Immutable wrapper: only that nothing is deleted or replaced and that a successful push leaves its tag in place is required (the wrapper cannot keep a tag from moving inside its check-push-check window; the property claims that for the immutable-tags mode)',
                         'the concurrent clause: seeded contention histories on ocimem in immutable-tags mode, linearizability decided by TLC (LinTrace); deeper in C08']
     return vlib.finish(ctx, rule='histories of tagged/untagged pushes, re-pushes under other media types, indexes of images, subjects, deletes, mounts and uploads; after every call the '
                        'projected state of the registry underneath must equal the model state, so a moved or lost tag, a deleted protected blob/manifest, or a write through the '
